@@ -6,6 +6,10 @@ from vf.ref import bip32_ref as R
 from vf.runner import Acc, filler
 
 PROPERTY = "C09"
+CONCUR_FILES = ('bits/bips/bip32.py',)
+# (thread a, thread b), warm-up: indices into seq_ops() - the ordinary single-case checks run concurrently (vf/concur.py)
+# (real-curve derivations cost ~0.3 s per call: the node scenario is thorough-tier only)
+CONCUR_SCEN = [((6, 7), ()), ((7, 7), (6,)), ((0, 3), ())]
 LEVEL = "exploration"
 RULE = ("the derivation TREE is explored explicitly (memoised by node): for seeds {16,32,64 filler bytes, BIP32 vector-1 seed} x "
         "{mainnet,testnet} EVERY path of depth <= 2 (thorough <= 3, plus depth-8 paths) over the index alphabet {0,1,2^31-1,0',1',"
@@ -18,6 +22,7 @@ RULE = ("the derivation TREE is explored explicitly (memoised by node): for seed
 ASSUMPTIONS = ["vf/ref/bip32_ref.py (ecref point maths, own serialisation), validated on BIP32 vectors 1 and 3 in the selftest",
                "int()-style leniency in path components is not examined"]
 OBLIGATIONS = {
+    "concurrent_calls": "interleavings of two concurrent calls (single-case checks in two threads, cold and after warm-up calls)",
     "history_sequences": "operation sequences (non-initial process states) explored",
     "hardened_edge": "a hardened child derived", "public_edge": "a child derived from an xpub", "hardened_from_xpub": "a hardened child "
     "requested from an xpub (must raise)", "index_max_nonhardened": "index 2^31-1", "stepwise": "a depth>=2 key derived step by step "
@@ -159,6 +164,9 @@ CASES = {"node": chk_node, "payload": chk_payload}
 
 
 def run_case(kind, case):
+    if kind == "concurcase":
+        from vf import concur
+        return concur.replay_cases(run_case, PROPERTY, case, CONCUR_FILES)
     if kind == "seq":
         from vf import seqexplore
         return seqexplore.replay(run_case, case)
@@ -208,10 +216,17 @@ def jobs(tier, seed):
             js.append({"name": f"reject/{b}/{sh}", "part": "reject", "base": b, "shard": [sh, 4], "weight": 5})
     from vf.runner import seq_jobs
     js += seq_jobs(8, weight=10)
+    from vf.runner import concur_jobs
+    js += concur_jobs(2 if tier == "quick" else len(CONCUR_SCEN))
     return js
 
 
 def run_job(job):
+    if job["part"] == "concurcase":
+        from vf.runner import run_concur_job
+        ops = seq_ops(dict(job, shard=[0, 1]))
+        scens = [{"threads": [ops[i] for i in th], "warm": [ops[i] for i in wm]} for th, wm in CONCUR_SCEN]
+        return run_concur_job(job, scens, run_case, PROPERTY, CONCUR_FILES)
     if job["part"] == "seq":
         from vf.runner import run_seq_job
         return run_seq_job(job, seq_ops(job), run_case)
